@@ -500,19 +500,20 @@ Definition range_to_header (r : range) : res str :=
   do items <- map_res range_item_to_str (r_ranges r);
   Ok (r_units r ++ EQ :: join [COMMA] items).
 
-(* the loop body of http.parse_range_header: None = `return None` *)
+(* the loop body of http.parse_range_header: None = `return None`; the four guards over begin / end / last_end are
+   the regenerated prh_guard_* of Gen.v *)
 Definition prh_item (st : list (Z * option Z) * Z) (item : str)
   : res (option (list (Z * option Z) * Z)) :=
   let '(ranges, last_end) := st in
   let item := py_strip item in
   if negb (mem DASH item) then Ok None
   else if match item with c :: _ => c =? DASH | [] => false end then
-    if (last_end <? 0)%Z then Ok None
+    if prh_guard_suffix_after_open 0 0 last_end then Ok None
     else
       match plain_int item with
       | Err e => if is_value_error e then Ok None else Err e
       | Ok b =>
-        if (b =? 0)%Z then Ok None
+        if prh_guard_suffix_zero b 0 last_end then Ok None
         else Ok (Some (ranges ++ [(b, None)], (-1)%Z))
       end
   else
@@ -524,7 +525,7 @@ Definition prh_item (st : list (Z * option Z) * Z) (item : str)
       match plain_int begin_str with
       | Err e => if is_value_error e then Ok None else Err e
       | Ok b =>
-        if (b <? last_end)%Z || (last_end <? 0)%Z then Ok None
+        if prh_guard_order b 0 last_end then Ok None
         else
           match end_str with
           | [] => Ok (Some (ranges ++ [(b, None)], (-1)%Z))
@@ -533,7 +534,7 @@ Definition prh_item (st : list (Z * option Z) * Z) (item : str)
             | Err e => if is_value_error e then Ok None else Err e
             | Ok e1 =>
               let e := (e1 + 1)%Z in
-              if (e <=? b)%Z then Ok None
+              if prh_guard_empty b e last_end then Ok None
               else Ok (Some (ranges ++ [(b, Some e)], e))
             end
           end
